@@ -159,10 +159,10 @@ _VOCAB = None
 
 
 class Module:
-    def __init__(self, rel: str, text: str):
+    def __init__(self, rel: str, text: str, tree: Optional[ast.Module] = None):
         self.rel = rel
         self.text = text
-        self.tree = ast.parse(text, filename=rel)
+        self.tree = tree if tree is not None else ast.parse(text, filename=rel)
         self.classes: Dict[str, ClassInfo] = {}
         self.functions: Dict[str, FuncInfo] = {}
         self.imports: Dict[str, str] = {}   # local name -> dotted origin
@@ -175,10 +175,10 @@ class Module:
         canonicalise(self.tree, eq_none=not rel.startswith("BPTK_Py/sddsl/"))
         self.inlined_calls = 0
 
-    def finish_view(self, global_classes, any_helpers: bool) -> None:
+    def finish_view(self, global_classes, any_helpers: bool, global_funcs=None) -> None:
         """Second phase (all modules parsed): look through helpers, also those inherited from a base class of another module."""
         from .inline import canonicalise, inline_module
-        self.inlined_calls = inline_module(self.tree, _VOCAB, global_classes, any_helpers) if _VOCAB else 0
+        self.inlined_calls = inline_module(self.tree, _VOCAB, global_classes, any_helpers, global_funcs) if _VOCAB else 0
         if self.inlined_calls:
             canonicalise(self.tree, eq_none=not self.rel.startswith("BPTK_Py/sddsl/"))      # the inlined bodies once more (idempotent)
         # execution/source order of the *view* (inlined statements keep the line numbers of their helper, so lineno is for reporting only)
@@ -235,7 +235,7 @@ class Module:
                 key = qual + ".setter"
             elif d.endswith(".deleter"):
                 key = qual + ".deleter"
-        fi = FuncInfo(key, f, self.rel, cls, decos)
+        fi = FuncInfo(key, f, getattr(f, "_home_file", None) or self.rel, cls, decos)      # _home_file: where a moved definition is written
         self.functions[key] = fi
         for n in walk_no_nested_body(f):
             if isinstance(n, (ast.FunctionDef, ast.AsyncFunctionDef)):
@@ -267,6 +267,8 @@ class Index:
         self.modules: Dict[str, Module] = {}
         self.digest = hashlib.sha256()
         root = os.path.join(self.repo, PKG)
+        raw: Dict[str, Tuple[str, ast.Module]] = {}
+        sources: List[Tuple[str, str]] = []
         if not os.path.isdir(root):
             raise AnalysisError("no %s package under %s" % (PKG, self.repo))
         for d, dirs, files in sorted(os.walk(root)):
@@ -283,22 +285,45 @@ class Index:
                 else:
                     with open(p, "r", encoding="utf-8") as fh:
                         text = fh.read()
+                sources.append((rel, text))
+        # files that exist only in the overlay (a variant that adds a module)
+        sources += sorted((rel, text) for rel, text in self.overlay.items()
+                          if rel.startswith(PKG + "/") and rel.endswith(".py") and rel not in {r for r, _t in sources})
+        for rel, text in sources:
+            if True:
                 self.digest.update(rel.encode() + b"\0" + text.encode() + b"\0")
                 try:
                     import warnings
                     with warnings.catch_warnings():
                         warnings.simplefilter("ignore")
-                        self.modules[rel] = Module(rel, text)
+                        raw[rel] = (text, ast.parse(text, filename=rel))
                 except SyntaxError as e:
                     raise AnalysisError("syntax error in %s: %s" % (rel, e))
+        # internal names that were renamed since the pinned tree get their old names back in the view (rename.py)
+        from .rename import resolve_renames
+        self.renames: List[str] = resolve_renames({rel: t for rel, (_x, t) in raw.items()},
+                                                  {rel: hashlib.sha256(x.encode()).hexdigest()[:16] for rel, (x, _t) in raw.items()})
+        for rel, (text, tree) in raw.items():
+            self.modules[rel] = Module(rel, text, tree)
         self.class_by_name: Dict[str, List[ClassInfo]] = {}
         for m in self.modules.values():
             for c in m.classes.values():
                 self.class_by_name.setdefault(c.name, []).append(c)
         global_classes = {name: cs[0].node for name, cs in self.class_by_name.items()}
         any_helpers = _VOCAB is not None and any(f.node.name not in _VOCAB for m in self.modules.values() for f in m.functions.values())
+        global_funcs: Dict[str, ast.FunctionDef] = {}
+        if any_helpers:
+            seen_twice = set()
+            for m in self.modules.values():
+                for n in m.tree.body:
+                    if isinstance(n, ast.FunctionDef) and n.name not in _VOCAB:
+                        if n.name in global_funcs:
+                            seen_twice.add(n.name)
+                        global_funcs[n.name] = n
+            for nme in seen_twice:
+                del global_funcs[nme]
         for m in self.modules.values():
-            m.finish_view(global_classes, any_helpers)
+            m.finish_view(global_classes, any_helpers, global_funcs)
 
     # -- lookups (fail closed) ---------------------------------------------
     def module(self, rel: str) -> Module:
